@@ -54,6 +54,10 @@ pub const STATE_NAMES: [&str; 35] = [
 
 pub const FIRST_FAILURE_STATE: u8 = 25;
 
+/// Drivers give up (reported as "stalled") once a run produced more than this many bytes: no
+/// workload of this harness legitimately decodes more.
+pub const OUT_CAP: usize = 48 << 20;
+
 pub fn state_name(s: u8) -> &'static str {
     STATE_NAMES.get(s as usize).copied().unwrap_or("?")
 }
@@ -231,6 +235,22 @@ pub fn drive_core(
     budgets: &[usize],
     ring_init: Option<&[u8]>,
 ) -> DecRun {
+    drive_core_ex(r, input, base_flags, mode, chunks, budgets, ring_init, false)
+}
+
+/// As `drive_core`; with `always_more` the HAS_MORE_INPUT flag stays set on every call (the
+/// caller claims more input will come), so running out of input ends in NeedsMoreInput.
+#[allow(clippy::too_many_arguments)]
+pub fn drive_core_ex(
+    r: &mut DecompressorOxide,
+    input: &[u8],
+    base_flags: u32,
+    mode: &BufMode,
+    chunks: &[usize],
+    budgets: &[usize],
+    ring_init: Option<&[u8]>,
+    always_more: bool,
+) -> DecRun {
     let (mut buf, flat) = match mode {
         BufMode::Flat(cap) => (vec![0xA5u8; *cap], true),
         BufMode::Ring(sz) => {
@@ -268,11 +288,11 @@ pub fn drive_core(
     let mut zero_progress = 0usize;
     loop {
         ncalls += 1;
-        if ncalls > bound || zero_progress > budgets.len() + chunks.len() + 8 {
+        if ncalls > bound || zero_progress > budgets.len() + chunks.len() + 8 || run.out.len() > OUT_CAP {
             run.stalled = true;
             break;
         }
-        let more = ci < chunks.len();
+        let more = always_more || ci < chunks.len();
         let flags = if more { flags0 | F_MORE } else { flags0 & !F_MORE };
         let budget = if budgets.is_empty() {
             usize::MAX
@@ -382,7 +402,7 @@ pub fn drive_inflate(
     let mut idle = 0;
     loop {
         run.calls += 1;
-        if run.calls > bound || idle > 4 {
+        if run.calls > bound || idle > 4 || run.out.len() > OUT_CAP {
             run.stalled = true;
             break;
         }
